@@ -2,7 +2,10 @@ package main
 
 import (
 	"fmt"
+	"runtime"
 	"runtime/debug"
+	"sync"
+	"sync/atomic"
 
 	"verif/harness/common"
 
@@ -71,4 +74,62 @@ func runLongSeq(n int) {
 	}
 	rec.Eval(fmt.Sprint("long", n), true)
 	rec.Count("long_sequence_elements", int64(n))
+}
+
+// A sequence is a value: Tail and Head never change it, so one sequence may be walked by several goroutines at the
+// same time (each with its own cursor). Fresh sequences built by New, four walkers released together.
+func runSharedWalkers(rounds int) {
+	c := caseT{Elem: "shared-walkers", N: rounds}
+	id := common.ID(fmt.Sprint("shared-walkers", rounds))
+	if common.Skip(id) {
+		return
+	}
+	rec.Begin(id, c)
+	defer rec.End(id)
+	xs := make([]int, 32)
+	for i := range xs {
+		xs[i] = i + 1
+	}
+	const walkers = 4
+	for r := 0; r < rounds; r++ {
+		l := lt.New(xs...)
+		s := st.New(xs...)
+		msgs := make([]string, walkers)
+		var gate atomic.Int32
+		var wg sync.WaitGroup
+		for w := 0; w < walkers; w++ {
+			wg.Add(1)
+			go func(w int) {
+				defer wg.Done()
+				gate.Add(1)
+				for gate.Load() < walkers {
+					runtime.Gosched()
+				}
+				if p := common.Catch(func() {
+					a, b := l, s
+					for i := 0; i < len(xs); i++ {
+						if lt.IsEmpty(a) || st.IsEmpty(b) || lt.Head(a) != xs[i] || st.Head(b) != xs[i] || lt.Length(a) != len(xs)-i {
+							msgs[w] = fmt.Sprintf("walker %d: position %d of a sequence shared by %d walkers is not element %d", w, i, walkers, xs[i])
+							return
+						}
+						a, b = lt.Tail(a), st.Tail(b)
+					}
+					if !lt.IsEmpty(a) || !st.IsEmpty(b) {
+						msgs[w] = fmt.Sprintf("walker %d: the shared sequence does not end after %d elements", w, len(xs))
+					}
+				}); p != nil {
+					msgs[w] = fmt.Sprintf("walker %d of %d on one shared sequence: panic: %v", w, walkers, p)
+				}
+			}(w)
+		}
+		wg.Wait()
+		for _, m := range msgs {
+			if m != "" {
+				rec.Violate("C19/shared/walk", fmt.Sprintf("round %d: %s", r, m), c)
+				return
+			}
+		}
+	}
+	rec.Eval(fmt.Sprint("shared-walkers", rounds), true)
+	rec.Count("shared_sequence_walks", int64(rounds*walkers))
 }
